@@ -86,7 +86,25 @@ class BuiltinMixin:
             return mk_int(n)
         return mk_int(py_len(v))
 
-    def _minmax(self, args, is_min):
+    def _minmax(self, args, is_min, kwargs=None):
+        kwargs = kwargs or {}
+        if len(args) == 1 and isinstance(args[0].t, (TSet, TDict)) and args[0].z is not None and \
+                (args[0].t.elem if isinstance(args[0].t, TSet) else args[0].t.k) is TInt and set(kwargs) <= {'default'}:
+            # min / max of a set of numbers (of a dict: of its keys): the default (or ValueError) for an empty one,
+            # otherwise a member that bounds all members
+            v = args[0]
+            dom = v.z if isinstance(v.t, TSet) else v.t.dom(v.z)
+            empty = v.t.empty() if isinstance(v.t, TSet) else v.t.empty_dom()
+            if self.branch(dom == empty):
+                if 'default' in kwargs:
+                    return kwargs['default']
+                self.py_raise('ValueError')
+            r = z3.Int(fresh_name('min' if is_min else 'max'))
+            x = z3.Int('mm_x')
+            self.assume(z3.Select(dom, r))
+            self.assume(z3.ForAll([x], z3.Implies(z3.Select(dom, x), (x >= r) if is_min else (x <= r)),
+                                  patterns=[z3.Select(dom, x)]))
+            return mk_int(r)
         if len(args) == 1 and isinstance(args[0].t, TList) and args[0].t.elem is TInt:
             # min / max of a list of numbers: ValueError on an empty list; otherwise a member that bounds all members
             from . import lists as L
@@ -139,10 +157,10 @@ class BuiltinMixin:
         raise Unsupported('hasattr on %s' % (tgt.py,))
 
     def bi_min(self, args, kwargs, node):
-        return self._minmax(args, True)
+        return self._minmax(args, True, kwargs)
 
     def bi_max(self, args, kwargs, node):
-        return self._minmax(args, False)
+        return self._minmax(args, False, kwargs)
 
     def bi_abs(self, args, kwargs, node):
         x = self.as_int(args[0])
